@@ -15,7 +15,7 @@ def gen(rnd):
         k = tuple(rnd.choice("abc") for _ in range(rnd.randint(1, 3)))
         if any(k[: len(o)] == o or o[: len(k)] == k for o in files):
             continue
-        files[k] = rnd.choice(["1", "2", "3"])
+        files[k] = rnd.choice(["1", "2", "3"]) + rnd.choice(["", "", "x"])  # content digit + metadata-only flag (exec bit)
     return files
 
 
@@ -34,10 +34,10 @@ def main(n, seed):
         dirs = {k[:j] for k in files for j in range(1, len(k))}
         for d in sorted(dirs):
             sub = sorted((k, v) for k, v in files.items() if k[: len(d)] == d)
-            h = hashlib.md5(repr([(k[len(d):], v) for k, v in sub]).encode()).hexdigest() + ".dir"
+            h = hashlib.md5(repr([(k[len(d):], v[0]) for k, v in sub]).encode()).hexdigest() + ".dir"  # listing = hashes only
             entries[d] = DataIndexEntry(key=d, meta=Meta(isdir=True), hash_info=HashInfo("md5", h), loaded=True)
         for k, v in files.items():
-            entries[k] = DataIndexEntry(key=k, meta=Meta(size=int(v)), hash_info=HashInfo("md5", v * 32))
+            entries[k] = DataIndexEntry(key=k, meta=Meta(size=int(v[0]), isexec=v.endswith("x")), hash_info=HashInfo("md5", v[0] * 32))
         for k, e in entries.items():
             idx[k] = e
         return idx, entries
@@ -48,16 +48,20 @@ def main(n, seed):
             extra = {k: v for k, v in list(fn.items())[:1] if not any(k[: len(o)] == o or o[: len(k)] == k for o in fo)}
             fn = dict(fo)
             fn.update(extra)
-        wu, ho, wr = rnd.random() < 0.5, rnd.random() < 0.5, rnd.random() < 0.4
-        distinct.add((tuple(sorted(fo.items())), tuple(sorted(fn.items())), wu, ho, wr))
+            for k in list(fn):
+                if rnd.random() < 0.3:  # a metadata-only change below possibly unchanged hashed directories
+                    fn[k] = fn[k][0] + ("" if fn[k].endswith("x") else "x")
+        wu, ho, wr = rnd.random() < 0.5, rnd.random() < 0.4, rnd.random() < 0.4
+        mo = (not ho) and (not wr) and rnd.random() < 0.25
+        distinct.add((tuple(sorted(fo.items())), tuple(sorted(fn.items())), wu, ho, wr, mo))
         old, eo = build(fo)
         new, en = build(fn)
         problem = None
         try:
-            got = list(diff(old, new, with_unchanged=wu, hash_only=ho, with_renames=wr))
+            got = list(diff(old, new, with_unchanged=wu, hash_only=ho, with_renames=wr, meta_only=mo))
             exp = Counter()
             for k in set(eo) | set(en):
-                t = _diff_entry(eo.get(k), en.get(k), hash_only=ho)
+                t = _diff_entry(eo.get(k), en.get(k), hash_only=ho, meta_only=mo)
                 if t == UNCHANGED and not wu:
                     continue
                 exp[(t, k)] += 1
@@ -90,9 +94,9 @@ def main(n, seed):
             problem = "raised " + repr(e)
         if problem:
             fails.append({"old": {"/".join(k): v for k, v in fo.items()}, "new": {"/".join(k): v for k, v in fn.items()},
-                          "with_unchanged": wu, "hash_only": ho, "with_renames": wr, "problem": problem})
+                          "with_unchanged": wu, "hash_only": ho, "meta_only": mo, "with_renames": wr, "problem": problem})
     return {"evaluations": n, "distinct_nontrivial": len(distinct), "failures": fails[:3], "n_failures": len(fails),
-            "bound": "keys over {a,b,c}, depth <= 3, <= 6 files per side, explicit hashed directory entries"}
+            "bound": "keys over {a,b,c}, depth <= 3, <= 6 files per side, explicit hashed directory entries, metadata-only changes, hash_only / meta_only / renames / with_unchanged"}
 
 
 if __name__ == "__main__":
